@@ -35,6 +35,9 @@ type Extra struct {
 // CurWorld is the world of the run in progress (read by the watchdog).
 var CurWorld atomic.Pointer[World]
 
+// Progress is bumped by every executed operation (watchdog input).
+var Progress atomic.Int64
+
 type RunResult struct {
 	Plan     *Plan
 	Viol     *Violation
@@ -62,6 +65,7 @@ func applyProfile(w *World, p *Profile) {
 	w.CheckTree = p.CheckTree
 	w.CheckFree = p.CheckFree
 	w.CheckLedger = p.CheckLedger
+	w.RecordIO = p.recordIO
 	w.installMonitors()
 }
 
